@@ -56,6 +56,9 @@ def build_roots():
             add('r_bounds_%s_%s' % (cn, ax), 'pub fn r_bounds_%s_%s(c: %s) -> (f32, f32) { c.%s_bounds() }' % (cn, ax, CT, ax), opaque=['*::min_' + ax, '*::max_' + ax], kind='bounds', c=cn, deg=deg, dim=dim, ax=ax)
         box = 'aabr' if dim == 2 else 'aabb'; BT = 'Aabr<f32>' if dim == 2 else 'Aabb<f32>'
         add('r_box_%s' % cn, 'pub fn r_box_%s(c: %s) -> %s { c.%s() }' % (cn, CT, BT, box), opaque=['*::%s_bounds' % a for a in 'xyz'[:dim]], kind='box', c=cn, deg=deg, dim=dim)
+        if dim == 3:
+            # 3D curves also have aabr() (x and y only, z discarded)
+            add('r_box2_%s' % cn, 'pub fn r_box2_%s(c: %s) -> Aabr<f32> { c.aabr() }' % (cn, CT), opaque=['*::%s_bounds' % a for a in 'xy'], kind='box', c=cn, deg=deg, dim=dim, bdim=2)
         PT = 'Vec%d<f32>' % dim
         add('r_search_%s' % cn, 'pub fn r_search_%s(c: %s, p: %s, t1: f32, p1: %s, t2: f32, p2: %s) -> (f32, %s) { c.binary_search_point(p, Two(Some((t1, p1)), Some((t2, p2))), 0.0, 1.0) }' % (cn, CT, PT, PT, PT, PT),
             opaque=['*::distance_squared', '*::distance', '*::magnitude', '*::magnitude_squared'], kind='search', c=cn, deg=deg, dim=dim, steps=None)
@@ -131,13 +134,15 @@ def run(ctx):
                 p = rs.only(); calls = {c[1].split('::')[-1]: p.term(c[3]) for c in p.ev('call')}
                 got = leaves(p.ret)
                 exp = []
+                bdim = m.get('bdim', dim)
                 for which in (0, 1):
-                    for ax in 'xyz'[:dim]:
+                    for ax in 'xyz'[:bdim]:
                         bn = ax + '_bounds'
                         if bn not in calls: exp.append(None); continue
                         t = fn('ret:%d' % which, calls[bn])
                         exp.append(bern(cps('a0', deg, ax), t))
-                names = ['%s.%s' % (mm, ax) for mm in ('min', 'max') for ax in 'xyz'[:dim]]
+                names = ['%s.%s' % (mm, ax) for mm in ('min', 'max') for ax in 'xyz'[:bdim]]
+                ctx.ob(key + '/slots', len(got) == len(names), 'shape', w, len(names), len(got))
                 for nm, g, e in zip(names, got, exp):
                     if e is None: ctx.ob('%s/%s' % (key, nm), False, 'deleg: the box is built from the axis bounds', w, 'bounds query', 'missing'); continue
                     kind = 'parameter' if any(g == fn('ret:%d' % i, c) for c in calls.values() for i in (0, 1)) else 'other'
